@@ -34,7 +34,7 @@ class _ClientDrv(Drv):
     def build(self, cfg):
         self.backend = _SlowFirst("backend", cfg.L, self.hang_first)
         self.ok = self.fail = 0
-        self.c = Client("client", target=self.backend, timeout=P(2.0) * cfg.L + P(0.75), retry_policy=self.retry(),
+        self.c = Client("client", target=self.backend, timeout=2.0 * cfg.L + P(0.75), retry_policy=self.retry(),
                         on_success=self._ok, on_failure=self._fail)
         return [self.backend, self.c]
 
@@ -143,7 +143,7 @@ class PooledClientDrv(Drv):
         self.pool = ConnectionPool("pool", target=self.backend, max_connections=1, connection_timeout=P(1.0),
                                    idle_timeout=P(1.0), connection_latency=cfg.lat())
         self.ok = self.fail = 0
-        self.pc = PooledClient("pclient", connection_pool=self.pool, timeout=P(2.0) * cfg.L + P(0.75),
+        self.pc = PooledClient("pclient", connection_pool=self.pool, timeout=2.0 * cfg.L + P(0.75),
                                retry_policy=FixedRetry(max_attempts=2, delay=P(0.5)),
                                on_success=lambda a, b: None, on_failure=lambda a, b: None)
         return [self.backend, self.pool, self.pc]
@@ -152,5 +152,81 @@ class PooledClientDrv(Drv):
         return [self.pc.send_request(payload={"i": i})]
 
 
+def _short(cfg):
+    """A timer SHORTER than the latency knob (and > 0): half of L, or a quarter period in the zero-latency configs."""
+    return cfg.L / 2 if cfg.L > 0 else P(0.25)
+
+
+class ClientShortTimeoutDrv(_ClientDrv):
+    """Request timeout L/2, i.e. below the backend's service time L: every attempt times out, then retries."""
+    covers = ("Client", "FixedRetry")
+    hang_first = 0
+
+    def retry(self):
+        return FixedRetry(max_attempts=2, delay=P(0.25))
+
+    def build(self, cfg):
+        ents = super().build(cfg)
+        self.c = Client("client", target=self.backend, timeout=_short(cfg), retry_policy=self.retry(),
+                        on_success=self._ok, on_failure=self._fail)
+        return [self.backend, self.c]
+
+
+class _PooledVariantDrv(Drv):
+    """PooledClient arms its request timeout AFTER `yield from pool.acquire()`.  These variants make the time to
+    obtain a connection exceed the request timeout: (a) set-up latency L of a new connection vs timeout L/2,
+    (b) pool of 1 exhausted, the holder keeps the connection (slow / hanging backend) longer than the waiter's
+    request timeout while the pool's own wait timeout is much larger, (c) the same with retries."""
+    family = "client"
+    covers = ("PooledClient", "ConnectionPool")
+    ops = ("request",)
+    hang_first = 0
+    retries = 1
+    max_conn = 1
+
+    def timeout(self, cfg):
+        raise NotImplementedError
+
+    def build(self, cfg):
+        self.backend = _SlowFirst("backend", cfg.L, self.hang_first)
+        self.pool = ConnectionPool("pool", target=self.backend, max_connections=self.max_conn,
+                                   connection_timeout=P(6.0), idle_timeout=P(1.0), connection_latency=cfg.lat())
+        self.pc = PooledClient("pclient", connection_pool=self.pool, timeout=self.timeout(cfg),
+                               retry_policy=(FixedRetry(max_attempts=self.retries, delay=P(0.25))
+                                             if self.retries > 1 else NoRetry()),
+                               on_success=lambda a, b: None, on_failure=lambda a, b: None)
+        return [self.backend, self.pool, self.pc]
+
+    def request(self, i, op):
+        return [self.pc.send_request(payload={"i": i})]
+
+
+class PooledClientTimeoutBelowSetupDrv(_PooledVariantDrv):
+    """(a) request timeout L/2 < connection set-up latency L; two connections allowed, healthy backend."""
+    max_conn = 2
+
+    def timeout(self, cfg):
+        return _short(cfg)
+
+
+class PooledClientTimeoutBelowHoldDrv(_PooledVariantDrv):
+    """(b) one connection, the first call hangs: the holder keeps the connection for its whole request timeout
+    (2L + 0.75 s), the waiters (patient pool, 6 s) get it only after their own budget has elapsed."""
+    hang_first = 1
+
+    def timeout(self, cfg):
+        return 2.0 * cfg.L + P(0.75)
+
+
+class PooledClientTimeoutBelowHoldRetryDrv(_PooledVariantDrv):
+    """(c) like (b) with short timeouts (L/2 resp. 0.25 s), a backend that hangs twice and 2 attempts per request."""
+    hang_first = 2
+    retries = 2
+
+    def timeout(self, cfg):
+        return _short(cfg)
+
+
 DRIVERS = [ClientNoRetryDrv, ClientFixedRetryDrv, ClientZeroDelayRetryDrv, ClientBackoffDrv, ClientJitterDrv,
-           ConnectionPoolDrv, ConnectionPoolWarmDrv, PooledClientDrv]
+           ConnectionPoolDrv, ConnectionPoolWarmDrv, PooledClientDrv, ClientShortTimeoutDrv,
+           PooledClientTimeoutBelowSetupDrv, PooledClientTimeoutBelowHoldDrv, PooledClientTimeoutBelowHoldRetryDrv]
